@@ -224,6 +224,30 @@ for _k, _v in R6.items():
     if _k in P and "text" in P[_k] and _v not in P[_k]["text"]:
         P[_k]["text"] += _v
 
+R7 = {
+ "C01": " Also (round 6): an out-of-range argument fails its rule even when the production ignores the parameter; divisions by a bank's address unit are exact or checked; the alignment address is not remembered across banks; the operand lookahead goes character by character outside comments and strings.",
+ "C02": " Also (round 6): the static flags of a match are computed for this match under the current symbol context, never remembered; `smallest` is decided on the sizes of the encodings just resolved.",
+ "C03": " Also (round 6): no text is sliced at a constant byte offset outside three audited sites; the real file server creates the file it was asked for; a derived output name equals none of the inputs.",
+ "C04": " Also (round 6): the answer of the argument range check is tested before it is bound to the parameter.",
+ "C05": " Also (round 6): both operands of || and && are tested for being booleans, the left one before the right one is evaluated; an expression does not continue over a line break; keywords are whole identifiers; strlen counts the bytes of the encoded value; every result a capped primitive builds lies behind the cap test.",
+ "C06": " Also (round 6): divisions by a bank's address unit have the remainder taken next to them (no rounding of positions or ends to whole addresses).",
+ "C07": " Also (round 6): the operand lookahead steps over strings and otherwise goes by characters; a line ends outside braces only and is scanned by tokens; the instruction parser skips everything ignorable first; every rule is listed in the prefix index.",
+ "C08": " Also (round 6): both matchers hand over their candidates in declaration order; every rule is listed in the prefix index; static flags are never remembered across instructions.",
+ "C09": " Also (round 6): the budget bounds the resolver passes only - the constant/#if pre-pass runs to its fixed point.",
+ "C11": " Also (round 6): get_blocks walks the items sorted by output offset; number formats are compared by kind.",
+ "C12": " Also (round 6): the symbol walk descends into the children of every symbol; Mesen offsets add bits before dividing down to bytes; the parser reads the stored text unchanged.",
+ "C13": " Also (round 6): a duplicate declaration is located at the later of the two spans (positions compared within one file only).",
+ "C14": " Also (round 6): the empty-file answer of the inclusion functions is given only when no range was requested; every non-empty tree an inclusion hands back was parsed in that call.",
+ "C15": " Also (round 6): no cell/atomic state in the symbol table; a name at the end of a line does not continue on the next line; names that start with a keyword are names.",
+ "C16": " Also (round 6): a name bound during the pre-pass waits for pending #if blocks; a -d number is produced by the language's literal parser; the declaration walker updates the scope on every Symbol node.",
+ "C17": " Also (round 6): a line of an asm block ends outside braces only; listed finding: a block that cannot be encoded ends the instruction instead of failing its candidate.",
+ "C18": " Also (round 6): a format parameter given twice is rejected; a derived output name equals none of the inputs; every escape sequence goes through add_style.",
+ "C19": " Also (round 6): every result a capped big-integer primitive builds lies behind the test against BIGINT_MAX_BITS.",
+}
+for _k, _v in R7.items():
+    if _k in P and "text" in P[_k] and _v not in P[_k]["text"]:
+        P[_k]["text"] += _v
+
 
 def main():
     props = [json.loads(l) for l in open(os.path.join(VERIF, "properties.jsonl"))]
